@@ -4,9 +4,9 @@ from . import tracefam as T
 FAM = dict(
     name="status",
     design=[dict(role="intended", module="StatusClient.tla", cfg="status_design.cfg")],
-    gen=dict(module="StatusClient.tla", cfgs=[("gen_status.cfg", 1.0)], quick=(1, 420), thorough=(1, 420)),
+    gen=dict(module="StatusClient.tla", cfgs=[("gen_status.cfg", 1.0)], quick=(1, 600), thorough=(1, 600)),
     trace=dict(module="TraceStatus.tla", cfg="trace_status.cfg"),
     harness=dict(family="status", chains=1, links=[]),
-    assumptions=["the grid: 3 client types x periods {1 s, 100 s, 14 d} x ages {0, p-1, p, p+1, 10p, 10^6 s} x sub-second parts {0, 1 ns, 0.5 s, 999999999 ns}"],
+    assumptions=["the grid: 3 client types x periods {1 s, 100 s, 14 d} x ages {-100, -5, -1 (trusted state ahead of the block time), 0, p-1, p, p+1, 10p, 10^6 s} x sub-second parts {0, 1 ns, 0.5 s, 999999999 ns}"],
 )
 PROPS = []
